@@ -89,6 +89,8 @@ class index:
     def pop_state(self):
         if len(self._states) > 0:
             self.working_phil = self._states.pop()
+            self._phil_has_changed = True
+            self.params = None
             self.rebuild_index()
             return True
         return False
@@ -99,6 +101,8 @@ class index:
             pass
         else:
             self.working_phil = self._states[index].fetch()
+            self._phil_has_changed = True
+            self.params = None
             self.rebuild_index()
             return True
         return False
